@@ -710,8 +710,23 @@ def check_caller_input(ctx: CheckContext, p: Program, r: Resolver, rule: str = "
             f = pp.methods.get(mn)
             if f is not None and pn in f.pos_params:
                 roots.append((f, pn))
-    for f, pn in roots:
-        pass
+    # pydantic hands a "before" validator the raw input - for dictionary input that is the caller's own mapping
+    n_before = 0
+    for f in p.all_funcs:
+        if isinstance(f.node, ast.Lambda):
+            continue
+        for d in getattr(f.node, "decorator_list", []):
+            if not isinstance(d, ast.Call):
+                continue
+            dn = d.func.attr if isinstance(d.func, ast.Attribute) else (d.func.id if isinstance(d.func, ast.Name) else "")
+            before = (dn in ("model_validator", "field_validator") and any(k.arg == "mode" and isinstance(k.value, ast.Constant) and k.value.value in ("before", "wrap") for k in d.keywords)) \
+                or (dn in ("validator", "root_validator") and any(k.arg == "pre" and isinstance(k.value, ast.Constant) and k.value.value is True for k in d.keywords))
+            if before:
+                ps = [a for a in f.pos_params if a not in ("cls", "self")]
+                if ps:
+                    roots.append((f, ps[0]))
+                    n_before += 1
+    ctx.info["before_validators_as_taint_roots"] = n_before
     eng = Taint(p, r, roots)
     ctx.info["taint_roots"] = [f"{f.qualname}({pn})" for f, pn in roots]
     ctx.info["taint_functions_analysed"] = len(eng.analysed)
